@@ -179,3 +179,71 @@ pub proof fn lemma_extract_equal_slots(z: Scalar, z2: Scalar, y: Scalar, y2: Sca
     ensures extract1(z, z2, c, c2) == extract1(y, y2, c, c2),   // @ob schnorr.equal-slots-extract-equal [C01 C02]
 {
 }
+
+/// −(a + b) == −a + −b
+pub proof fn lemma_s_neg_add(a: Scalar, b: Scalar)
+    ensures s_neg(s_add(a, b)) == s_add(s_neg(a), s_neg(b)),
+{
+    // (a + b) + (−a + −b) == (a + −a) + (b + −b) == 0
+    ax_s_add_assoc(a, b, s_add(s_neg(a), s_neg(b)));
+    ax_s_add_assoc(b, s_neg(a), s_neg(b));
+    ax_s_add_comm(b, s_neg(a));
+    ax_s_add_assoc(s_neg(a), b, s_neg(b));
+    ax_s_add_neg(b);
+    ax_s_add_zero(s_neg(a));
+    ax_s_add_neg(a);
+    assert(s_add(b, s_add(s_neg(a), s_neg(b))) == s_add(s_add(b, s_neg(a)), s_neg(b)));
+    assert(s_add(s_add(s_neg(a), b), s_neg(b)) == s_add(s_neg(a), s_add(b, s_neg(b))));
+    assert(s_add(s_add(a, b), s_add(s_neg(a), s_neg(b))) == s_zero());
+    lemma_s_neg_unique(s_add(a, b), s_add(s_neg(a), s_neg(b)));
+}
+
+/// (a + b) − (a2 + b2) == (a − a2) + (b − b2)
+pub proof fn lemma_s_sub_pairs(a: Scalar, b: Scalar, a2: Scalar, b2: Scalar)
+    ensures s_sub(s_add(a, b), s_add(a2, b2)) == s_add(s_sub(a, a2), s_sub(b, b2)),
+{
+    lemma_s_neg_add(a2, b2);
+    // (a + b) + (−a2 + −b2) == (a + −a2) + (b + −b2)
+    ax_s_add_assoc(a, b, s_add(s_neg(a2), s_neg(b2)));
+    ax_s_add_assoc(b, s_neg(a2), s_neg(b2));
+    ax_s_add_comm(b, s_neg(a2));
+    ax_s_add_assoc(s_neg(a2), b, s_neg(b2));
+    ax_s_add_assoc(a, s_neg(a2), s_add(b, s_neg(b2)));
+    assert(s_add(b, s_add(s_neg(a2), s_neg(b2))) == s_add(s_add(b, s_neg(a2)), s_neg(b2)));
+    assert(s_add(s_add(s_neg(a2), b), s_neg(b2)) == s_add(s_neg(a2), s_add(b, s_neg(b2))));
+}
+
+/// Constraint transfer: a slot tied to another slot by a PUBLIC shift (z = y + c·a in both transcripts) extracts to
+/// the other slot's value plus a.
+pub proof fn lemma_extract_shifted_slot(z: Scalar, z2: Scalar, y: Scalar, y2: Scalar, c: Scalar, c2: Scalar, a: Scalar)
+    requires z == s_add(y, s_mul(c, a)), z2 == s_add(y2, s_mul(c2, a)), c != c2,
+    ensures extract1(z, z2, c, c2) == s_add(extract1(y, y2, c, c2), a),   // @ob schnorr.publicly-shifted-slot-extracts-to-the-shifted-value [C02]
+{
+    let dc = s_sub(c, c2);
+    let inv = s_inv(dc);
+    lemma_s_sub_nonzero(c, c2);
+    // z − z2 == (y − y2) + (c·a − c2·a) == (y − y2) + (c − c2)·a
+    lemma_s_sub_pairs(y, s_mul(c, a), y2, s_mul(c2, a));
+    ax_s_mul_comm(c, a);
+    ax_s_mul_comm(c2, a);
+    lemma_s_distrib_sub(a, c, c2);
+    ax_s_mul_comm(a, dc);
+    assert(s_sub(z, z2) == s_add(s_sub(y, y2), s_mul(dc, a)));
+    // inv·((y − y2) + dc·a) == inv·(y − y2) + (inv·dc)·a == extract1(y, y2) + a
+    ax_s_distrib(inv, s_sub(y, y2), s_mul(dc, a));
+    ax_s_mul_assoc(inv, dc, a);
+    ax_s_inv(dc);
+    ax_s_mul_comm(dc, inv);
+    ax_s_mul_comm(s_one(), a);
+    ax_s_mul_one(a);
+}
+
+/// the same with a subtraction: z = y − c·a
+pub proof fn lemma_extract_shifted_slot_sub(z: Scalar, z2: Scalar, y: Scalar, y2: Scalar, c: Scalar, c2: Scalar, a: Scalar)
+    requires z == s_sub(y, s_mul(c, a)), z2 == s_sub(y2, s_mul(c2, a)), c != c2,
+    ensures extract1(z, z2, c, c2) == s_sub(extract1(y, y2, c, c2), a),   // @ob schnorr.publicly-shifted-slot-extracts-to-the-shifted-value-sub [C02]
+{
+    lemma_s_mul_neg(c, a);
+    lemma_s_mul_neg(c2, a);
+    lemma_extract_shifted_slot(z, z2, y, y2, c, c2, s_neg(a));
+}
